@@ -61,6 +61,7 @@ pub proof fn lemma_c08_divmod_law(a: int, b: int)
         &&& iabs(r) < iabs(b)
     })
 {
+    reveal(div_spec); reveal(rem_spec);
     lemma_tdiv(a, b);
     let q = tdiv(a, b); let r = trem(a, b);
     assert(r == a - q * b);
@@ -73,5 +74,6 @@ pub proof fn lemma_c08_divmod_law_uint(a: int, b: int)
         q * b + r == a && 0 <= r < b
     })
 {
+    reveal(div_spec); reveal(rem_spec);
     lemma_tdiv(a, b);
 }
